@@ -157,7 +157,7 @@ Lemma vrecs_facts o :
   length (vrecs o) = nobs o /\ map v_id (vrecs o) = oids o /\ map v_row (vrecs o) = mat o /\
   map v_md (vrecs o) = md_list (omd o) (nobs o).
 Proof.
-  intros (W1 & W2 & W3 & W4 & W5 & W6). unfold vrecs, v_id, v_row, v_md, vrec.
+  intros (W1 & W2 & W3 & W4 & W5 & W6). unfold vrecs, v_id, v_row, v_md.
   assert (L1 : length (combine (oids o) (mat o)) = nobs o) by (rewrite combine_length, W1; unfold nobs; lia).
   assert (L2 : length (md_list (omd o) (nobs o)) = nobs o) by (apply md_list_len; exact W5).
   repeat split.
@@ -489,7 +489,7 @@ Section CollapseRows.
     - apply Forall_forall. intros r Hr. apply in_map_iff in Hr. destruct Hr as [g [<- _]]. apply col_sums_length.
     - apply cr_keys_NoDup.
     - exact W4.
-    - destruct incl; [|exact I]. apply md_ok_ctor. cbn [md_ok]. rewrite !map_length. reflexivity.
+    - destruct incl; [|exact Logic.I]. apply md_ok_ctor. cbn [md_ok]. rewrite !map_length. reflexivity.
     - apply md_ok_ctor. exact W6.
   Qed.
 
